@@ -208,6 +208,18 @@ Definition fmt_of (id : N) : fmt :=
   | 309 => daddr_fmt | 310 => ping_fmt | 311 => merkleproof_fmt | 312 => netaddr_fmt
   | 401 => responseblocks_fmt | 402 => resetview_fmt | 403 => respinactive_fmt
   | 404 => dposaddr_fmt | 405 => dposgetblocks_fmt
+  | 313 | 314 => inv_fmt                       (* msg.GetData, msg.NotFound embed Inv *)
+  | 315 | 410 => ping_fmt                      (* msg.Pong, dpos Ping/Pong *)
+  | 406 | 408 => H256                          (* dpos Inventory, RequestProposal *)
+  | 407 => U32                                 (* dpos RequestConsensus *)
+  | 409 => str                                 (* dpos Daddr *)
+  | 411 => reject_fmt                          (* dpos Reject *)
+  | 412 => respinactive_fmt                    (* dpos ResponseRevertToDPOS *)
+  | 413 => FFix 64                             (* dpos VerAck *)
+  | 414 => payload_fmt 14 0                    (* dpos IllegalProposals (payload version 0) *)
+  | 415 => payload_fmt 15 0                    (* dpos IllegalVotes *)
+  | 416 => payload_fmt 17 0                    (* dpos SidechainIllegalData *)
+  | 417 => proposal_fmt | 418 => vote_fmt      (* dpos Proposal, Vote *)
   | _ =>
     if (100 <=? id) && (id <? 250) then payload_fmt (id - 100) 0      (* payload of tx type id-100; ctx = [version] *)
     else if (250 <=? id) && (id <? 260) then outpayload_fmt (id - 250)
@@ -216,7 +228,8 @@ Definition fmt_of (id : N) : fmt :=
 
 Definition format_ids : list N :=
   [1; 2; 3; 4; 5; 6; 7; 8; 9; 10; 11; 30; 31; 32; 33; 34; 35;
-   300; 301; 302; 303; 304; 305; 307; 308; 309; 310; 311; 312; 401; 402; 403; 404; 405]
+   300; 301; 302; 303; 304; 305; 307; 308; 309; 310; 311; 312; 313; 314; 315;
+   401; 402; 403; 404; 405; 406; 407; 408; 409; 410; 411; 412; 413; 414; 415; 416; 417; 418]
   ++ map (fun t => 100 + t) tx_types ++ map (fun t => 250 + t) out_types.
 
 Definition all_formats : list fmt := map fmt_of format_ids.
